@@ -1341,6 +1341,12 @@ def check_roundtrip(s, cycles, stats, chi2=True):
                     stats['refused_' + name] = stats.get('refused_' + name, 0) + 1
                     if name != ref:
                         return {'what': 'content the format cannot express is refused with %s, expected %s' % (name, ref), 'cycle': k}
+                    if os.path.exists(path):
+                        with open(path, newline='') as f:
+                            left = f.read()
+                        return {'what': 'the refused export (%s) left a file behind: %d line(s) of a truncated graph' % (name, left.count('\n')),
+                                'partial_file': left, 'cycle': k}
+                    stats['refused_no_file'] = stats.get('refused_no_file', 0) + 1
                     return None
                 return {'what': 'export in cycle %d raised %s: %s' % (k, name, ex), 'cycle': k}
             if k == 1 and ref is not None:
@@ -1403,8 +1409,28 @@ def shrink_graph(s, fails):
     return cur
 
 
+# the fixed witness of the known finding (C08/C13): SE(3) odometry edge, unit measurement quaternion with w < 0,
+# information with one translation-rotation cross term.  normalize() on import negates the quaternion; chi2 changes.
+def _eye6_cross():
+    m = [[1.0 if i == j else 0.0 for j in range(6)] for i in range(6)]
+    m[0][5] = m[5][0] = 0.5
+    return m
+
+
+FIXED_SIGN_FLIP = {
+    'params': [],
+    'verts': [{'id': 0, 'kind': 'SE3', 'val': [0.0, 0.0, 0.0, 0.0, 0.0, 0.0, 1.0]},
+              {'id': 1, 'kind': 'SE3', 'val': [1.0, 2.0, 3.0, 0.5, 0.5, -0.5, 0.5]}],
+    'edges': [{'t': 'odo', 'k': 'SE3', 'ids': [0, 1], 'est': [1.25, 1.75, 3.5, -0.5, 0.5, -0.5, -0.5], 'info': _eye6_cross()}]}
+
+
 def oracle_roundtrip(rng, n, cycles=5):
     stats, fails = {}, []
+    # always first, whatever the seed: makes the KNOWN-FINDING deterministic
+    f = check_roundtrip(FIXED_SIGN_FLIP, 1, stats, chi2=True)
+    stats['fixed_sign_flip_witness_run'] = 1
+    if f:
+        fails.append(dict(f, graph=snap_json(FIXED_SIGN_FLIP), cycles=1, chi2=True))
     for k in range(n):
         moderate = k % 2 == 0
         g = gen_graph(rng, ['ok', 'ok', 'ok', 'any', 'ok', 'defect'][k % 6], moderate=moderate)
